@@ -62,3 +62,47 @@ Proof.
   exists v. split; [exact Hin|]. rewrite Hs, (parse_version_show v m Hp). split; [reflexivity|].
   intros m' Hm'. exact (proj1 (full_semver_read_as_is v m' Hm')).
 Qed.
+
+(* ---------- the edited spec, read again by the same parser, is the target version ---------- *)
+Lemma tss_strip a b x r : (a =? x) = false -> trim_start_str [a; b] (a :: b :: x :: r) = x :: r.
+Proof.
+  intros H. unfold trim_start_str. cbn [length trim_start_str_fuel strip_prefix]. rewrite !N.eqb_refl. cbn [strip_prefix]. now rewrite H.
+Qed.
+Lemma tss_half a b x r : (b =? x) = false -> trim_start_str [a; b] (a :: x :: r) = a :: x :: r.
+Proof.
+  intros H. unfold trim_start_str. cbn [length trim_start_str_fuel strip_prefix]. rewrite N.eqb_refl. now rewrite H.
+Qed.
+Lemma tsc_strip c x r : (c =? x) = false -> trim_start_char c (c :: x :: r) = x :: r.
+Proof. intros H. unfold trim_start_char. cbn [drop_while]. now rewrite N.eqb_refl, H. Qed.
+
+Lemma strip_ops_prefixed p d t : In p [[62;61]; [60;61]; [62]; [60]; [61]; [94]; [126]; [118]; []] -> is_digit d = true ->
+  strip_ops (p ++ d :: t) = d :: t.
+Proof.
+  intros Hp Hd. unfold is_digit in Hd. apply andb_true_iff in Hd as [A B]. apply N.leb_le in A, B.
+  cbn [In] in Hp. repeat (destruct Hp as [<-|Hp]); try contradiction; cbn [app]; unfold strip_ops;
+    repeat (first [ rewrite tss_strip by (apply N.eqb_neq; lia)
+                  | rewrite tss_half by (apply N.eqb_neq; lia)
+                  | rewrite tsc_strip by (apply N.eqb_neq; lia)
+                  | rewrite trim_start_str_other by (apply N.eqb_neq; lia)
+                  | rewrite trim_start_char_other by (apply N.eqb_neq; lia) ]); reflexivity.
+Qed.
+
+(* a bump action writes [operator prefix ++ Display of the target]; the same lenient parser reads that text as the target *)
+Theorem edited_spec_denotes_target prefix m :
+  In prefix [[62;61]; [60;61]; [62]; [60]; [61]; [94]; [126]; [118]; []] ->
+  (exists s, parse s = Some m) -> parse_version (prefix ++ show m) = Some m.
+Proof.
+  intros Hp [s Hs]. pose proof (parse_show s m Hs) as E. rewrite E.
+  destruct (parse_starts_digit s m Hs) as [d [t [-> Hd]]].
+  unfold parse_version. rewrite (strip_ops_prefixed prefix d t Hp Hd).
+  rewrite pad_full by (apply (parse_two_dots _ m Hs)). exact Hs.
+Qed.
+Corollary offered_action_denotes_target keep current versions s :
+  latest_where keep current versions = Some s ->
+  exists v m, In v versions /\ parse_version v = Some m /\ s = show m /\
+              parse_version (extract_version_prefix current ++ s) = Some m.
+Proof.
+  intros H. destruct (latest_where_sound keep current versions s H) as [cur [v [m [_ [Hin [Hp [Hs _]]]]]]].
+  exists v, m. repeat split; try assumption. rewrite Hs.
+  apply edited_spec_denotes_target; [apply prefix_is_operator|]. unfold parse_version in Hp. eauto.
+Qed.
